@@ -373,6 +373,24 @@ def run(rep, tier="quick", srcdir=None, only=None):
         rule_TR7(rep, prog, q)
     if want("C02-TB8"):
         rule_TB8(rep, q)
+    if want("C02-OD9"):
+        from .sync_common import rule_snapshot_walk_waits
+        rid9 = rep.rule("C02-OD9", "the thread-bound main queue runs the items of a captured snapshot to the end, in list order: the walk waits for a producer that "
+                        "has swung the tail but not yet linked its item instead of taking the NULL link for the end of the list", floor=1)
+        rule_snapshot_walk_waits(rep, rid9, prog, "_dispatch_main_queue_drain", "the rest of the detached list is never run: item k of a thread is dropped while its "
+                                 "item k+1 (pushed later) runs")
+    # the DIRTY hand-shake between a push and the unlocking drainer is what keeps an item from being stranded behind an idle-looking queue - and a stranded
+    # item is overtaken by the same thread's next dispatch_sync, which takes the uncontended fast path (shared with C01)
+    if want("C01-MP3") or want("C01-OD5") or want("C01-TR4"):
+        from . import C01
+        if want("C01-MP3") or want("C01-OD5"):
+            C01.rule_MP3_OD5(rep, prog, q)
+        if want("C01-TR4"):
+            ts_all = []
+            ex.compute_argbits()
+            for f_ in sorted(prog.all_functions(), key=lambda f: f.name):
+                ts_all.extend(ex.transitions(f_, DQ_STATE, plain=True))
+            C01.rule_TR4(rep, prog, ex, q, ts_all)
     if want("C05-WR3"):
         # a parked dispatch_sync waiter must only be released by the real lock hand-off (shared with C05)
         from . import C05
